@@ -446,6 +446,11 @@ func genIdempotency(r *vc.Rand) *Scenario {
 		case 5:
 			op = g.delMetaAcc(vc.Pick(r, accts))
 		}
+		if r.Chance(1, 5) { // the key travels in the Idempotency-Key header of an HTTP request, next to other options
+			op = g.postings(P(vc.Pick(r, accts[:2]), "sink", int64(r.Range(1, 50))))
+			op.Via = vc.Pick(r, []string{"v2", "v2", "v1"})
+			op.PreviewParam = vc.Pick(r, []string{"", "false", "0", "no", "False"})
+		}
 		op.IK = fmt.Sprintf("key-%d-%d", k, r.Intn(1000))
 		switch r.Intn(6) { // keys are opaque client strings: long ones, and ones differing only far from the start
 		case 0:
@@ -705,7 +710,7 @@ func genReverts(r *vc.Rand) *Scenario {
 
 // ------------------------------------------------------------------------------------------------ C09
 
-var c09Accounts = []string{"world", "alice", "bob", "users:001", "bank-eu:fees", "a_b", "X", "0"}
+var c09Accounts = []string{"world", "alice", "bob", "users:001", "bank-eu:fees", "a_b", "X", "0", "World", "WORLD", "worlds", "world:1"}
 var c09Assets = []string{"USD", "EUR/2", "COIN", "A0/123456", "BTC/8"}
 
 func genPostingMode(r *vc.Rand) *Scenario {
@@ -814,6 +819,9 @@ func genWrites(r *vc.Rand) *Scenario {
 	defer func() {
 		// a keyed request is sometimes sent twice at once (a client that retries early): the second answer, too, needs the entry
 		last := &sc.Phases[len(sc.Phases)-1]
+		if r.Chance(1, 4) { // one read of a transaction meets a transient store error: an error answer must not leave an entry
+			last.FailRead = fmt.Sprintf("GetTransaction:%d", r.Range(1, 3))
+		}
 		if !r.Chance(1, 2) || len(last.Clients) < 2 {
 			return
 		}
@@ -830,6 +838,17 @@ func genWrites(r *vc.Rand) *Scenario {
 			op.IK = "ik-" + op.Tag
 		}
 		dup := *op
+		if r.Chance(1, 3) { // the same key comes back with another kind of write: it must not be told that *this* write is done
+			var x Op
+			switch op.Kind {
+			case "savemeta", "delmeta":
+				x = g.fund("alice", 1)
+			default:
+				x = g.saveMetaAcc("alice", map[string]string{"x": "1"})
+			}
+			x.IK = op.IK
+			dup = x
+		}
 		dup.Attempt = 1
 		dup.CancelAt = 0
 		o := (c + 1) % len(last.Clients)
@@ -920,6 +939,15 @@ func runBigBatch(n int) (*ScenarioRun, int) {
 func genWritesForEvents(r *vc.Rand) *Scenario {
 	sc := genWrites(r)
 	last := &sc.Phases[len(sc.Phases)-1]
+	if r.Chance(1, 3) { // a script that also writes account metadata, sent with a key and retried (the retry is a replay)
+		t := "am" + fmt.Sprint(r.Intn(1000))
+		op := Op{Kind: "script", Tag: t, Meta: map[string]string{"req": t}, IK: "ik-" + t}
+		op.Plain = "send [USD 1] (\n\tsource = @world\n\tdestination = @alice\n)\nset_account_meta(@alice, \"tier\", \"gold\")\nset_account_meta(@users:001, \"seen\", 1)\n"
+		retry := op
+		retry.Attempt = 2
+		c := r.Intn(len(last.Clients))
+		last.Clients[c].Ops = append(last.Clients[c].Ops, op, retry)
+	}
 	for pi := range sc.Phases { // every field of the entry must be in the event: references and client timestamps too
 		for c := range sc.Phases[pi].Clients {
 			for k := range sc.Phases[pi].Clients[c].Ops {
